@@ -196,6 +196,142 @@ def run_histories(prop, fam, tier, seed, work, jh, specdir, stats):
             fails.append((v, e, hist, k))
     return fails
 
+def c06_main(prop, tier, seed, a):
+    """C06: the call-protocol model JCall, schedule replay through the gate hook, and free-running
+    evaluations under the race detector (DESIGN.md section 6, C06)."""
+    from vlib import _validate_one
+    t_start = time.time()
+    work = mkwork(prop)
+    fam = families.FAMILIES[prop]
+    known = load_known(prop)
+    try:
+        jh = build_harness(work)
+        jhr = build_harness(work, race=True)
+        specdir = stage_spec(work)
+        stats = {"m_runs": [], "m_states": 0, "m_transitions": 0}
+        violations, samples = [], []
+        # 1. design-level model checking (+ vacuity guards)
+        for (module, cfg, expect) in fam["models"]:
+            gen, dist = run_model(specdir, module, cfg, expect, workers=8)
+            stats["m_states"] += dist
+            stats["m_transitions"] += gen
+            stats["m_runs"].append({"module": module, "config": cfg, "expected": expect, "distinct_states": dist, "generated": gen})
+            log("[%s] design model %s/%s: %s (%d distinct states)" % (prop, module, cfg, "holds" if expect == "hold" else "violates " + expect + " as expected", dist))
+        # 2. every interleaving TLC enumerates is forced on the real code
+        scheds = os.path.join(work, "scheds.ndjson")
+        nsched = 0
+        with open(scheds, "w") as g:
+            for cfg in fam["sched_cfgs"][tier]:
+                out, gen, dist = run_tlc(specdir, "MC_CallSched", cfg, workers=1)
+                stats["m_states"] += dist
+                stats["m_transitions"] += gen
+                with open(out, errors="replace") as f:
+                    for line in f:
+                        if line.startswith('"CASE '):
+                            c = json.loads(json.loads(line)[5:])
+                            for sharedx in (False, True):
+                                c["shared_expr"] = sharedx
+                                g.write(json.dumps(c) + "\n")
+                                nsched += 1
+        ctrace, etrace = os.path.join(work, "ctrace.ndjson"), os.path.join(work, "etrace.ndjson")
+        r = subprocess.run([jh, "sched", "-in", scheds, "-out", ctrace, "-evals", etrace], capture_output=True, text=True)
+        if r.returncode != 0:
+            raise Infra("schedule replay failed: " + r.stderr[-2000:])
+        cev = load_trace(ctrace)
+        notf = [e for e in cev.values() if e["ev"] == "NotFollowed"]
+        # protocol events against JCall
+        v1, g1, d1 = _validate_one(specdir, ctrace, 300, 1, 3000, "TraceCall")
+        txt = open(os.path.join(specdir, "TraceCall.run300.out"), errors="replace").read()
+        proto_bad = None
+        if "is violated" in txt:
+            proto_bad = "OwnContextObserved violated: a built-in read a context item that is not the one of its own call site"
+        elif "REJECTED" in txt:
+            proto_bad = "the recorded protocol steps are not a behaviour of JCall: " + [l for l in txt.splitlines() if "REJECTED" in l][0]
+        elif notf:
+            raise Infra("a schedule could not be followed by the real code (gate hooks moved?): %s" % notf[0].get("why"))
+        elif "No error has been found" not in txt:
+            raise Infra("TraceCall did not complete:\n" + txt[-2000:])
+        # per-goroutine outcomes against the sequential semantics
+        ev_verd, g2, d2 = validate(specdir, etrace, workers=8)
+        eevs = load_trace(etrace)
+        bad_out = {i: v for i, v in ev_verd.items() if v.split(";")[0] == "no"}
+        if proto_bad or bad_out:
+            e = eevs[sorted(bad_out)[0]] if bad_out else {"src": [], "inp": None, "out": {}, "fam": prop}
+            path = write_replay(prop, tier, seed, dict(e, fam=prop), proto_bad or "no", "G-schedule")
+            violations.append(path)
+            log("   schedule replay: %s%s" % (proto_bad or "", (" | %d goroutine outcomes differ from the sequential outcome, e.g. %s -> %s" %
+                (len(bad_out), cps_to_str(e["src"]), json.dumps(plain_out(e["out"])))) if bad_out else ""))
+        # 3. free-running goroutines under the race detector
+        conc = os.path.join(work, "conc.ndjson")
+        racelog = os.path.join(work, "race")
+        cfgc = fam["conc"][tier]
+        total_evals = 0
+        conc_recs = 0
+        race_reports = []
+        for k, ng in enumerate(cfgc["goroutines"]):
+            env = dict(GOENV, GORACE="halt_on_error=0 log_path=%s" % racelog)
+            r = subprocess.run([jhr, "conc", "-seed", str(seed * 10 + k), "-g", str(ng), "-dur", cfgc["dur"], "-out", conc + str(k)], capture_output=True, text=True, env=env)
+            if r.returncode not in (0, 66):
+                raise Infra("free-running harness failed (%d): %s" % (r.returncode, r.stderr[-2000:]))
+            import re as _re
+            m = _re.search(r"(\d+) evaluations", r.stderr)
+            total_evals += int(m.group(1)) if m else 0
+            for fn in os.listdir(work):
+                if fn.startswith("race."):
+                    with open(os.path.join(work, fn), errors="replace") as f:
+                        rep = f.read()
+                    if "DATA RACE" in rep:
+                        race_reports.append(rep[:3000])
+                    os.remove(os.path.join(work, fn))
+            cv, g3, d3 = validate(specdir, conc + str(k), workers=8)
+            cevs = load_trace(conc + str(k))
+            conc_recs += len(cevs)
+            stats["m_states"] += d3
+            stats["m_transitions"] += g3
+            badc = {i: v for i, v in cv.items() if v.split(";")[0] == "no"}
+            if k == 0:
+                for i in sorted(cevs)[:3]:
+                    samples.append({"free_running": cps_to_str(cevs[i]["src"]), "input": plain(cevs[i]["inp"]), "observed": plain_out(cevs[i]["out"])})
+            if badc:
+                e = cevs[sorted(badc)[0]]
+                path = write_replay(prop, tier, seed, dict(e, fam=prop), "no", "V-concurrent")
+                violations.append(path)
+                log("   free-running (%d goroutines): %d recorded outcomes are not the sequential outcome, e.g. %s -> %s" % (ng, len(badc), cps_to_str(e["src"]), json.dumps(plain_out(e["out"]))[:200]))
+        if race_reports:
+            os.makedirs(os.path.join(VERIF, "replays"), exist_ok=True)
+            path = os.path.join(VERIF, "replays", "%s-race-%d.txt" % (prop, seed))
+            with open(path, "w") as f:
+                f.write("\n\n".join(race_reports[:5]))
+            violations.append(path)
+            log("   the race detector reported %d data races; first report in %s" % (len(race_reports), path))
+        for path in violations:
+            print("VIOLATION property=%s replay=%s" % (prop, os.path.relpath(path, VERIF)))
+        # a sample schedule
+        with open(scheds) as f:
+            first = json.loads(f.readline())
+        samples.insert(0, {"schedule": first["order"], "call_trees": first["trees"], "shared_expr": first["shared_expr"]})
+        coverage = {
+            "states": stats["m_states"] + d1 + d2, "transitions": stats["m_transitions"] + g1 + g2,
+            "traces_validated_against_impl": nsched + len(cfgc["goroutines"]),
+            "samples": samples,
+            "evaluations": nsched + total_evals, "distinct_nontrivial": len(eevs) + conc_recs,
+            "rule": "schedule replay: every interleaving TLC enumerates for the configured call trees is forced on the real code (each on private and on shared compiled expressions) - distinct = goroutine outcomes recorded; free-running: distinct (goroutine, program, outcome) records, each validated against the sequential semantics",
+            "exhaustive": True,
+            "design_model_runs": stats["m_runs"], "schedules_replayed": nsched, "protocol_events_validated": len(cev), "goroutine_outcomes_validated": len(eevs),
+            "free_running": {"goroutine_counts": cfgc["goroutines"], "duration_each": cfgc["dur"], "evaluations": total_evals, "records_validated": conc_recs, "race_reports": len(race_reports)},
+        }
+        if a.replay is None:
+            write_evidence(prop, tier, seed, "model_checking", coverage, time.time() - t_start, len(violations), fam.get("assumptions", []) + families.COMMON_ASSUMPTIONS)
+        log("[%s] %s tier: %d schedules replayed (%d protocol events, %d outcomes), %d free-running evaluations, %d race reports, %d violations, %.0fs" %
+            (prop, tier, nsched, len(cev), len(eevs), total_evals, len(race_reports), len(violations), time.time() - t_start))
+        return 1 if violations else 0
+    except Infra as e:
+        print("INFRASTRUCTURE: " + str(e), file=sys.stderr)
+        return 2
+    finally:
+        if not a.keep:
+            shutil.rmtree(work, ignore_errors=True)
+
 def main(argv):
     ap = argparse.ArgumentParser()
     ap.add_argument("prop")
@@ -209,8 +345,8 @@ def main(argv):
         print("unknown property", prop, file=sys.stderr)
         return 2
     fam = families.FAMILIES[prop]
-    if "custom" in fam:
-        return fam["custom"](prop, a.tier, seed, a)
+    if fam.get("custom") == "c06":
+        return c06_main(prop, a.tier, seed, a)
     t_start = time.time()
     work = mkwork(prop)
     try:
